@@ -605,6 +605,8 @@ func (c *Ctx) ruleStr() {
 	c.ruleStrJoin()
 	c.ruleStrLeadOnce()
 	c.ruleStrVerbatimSettings()
+	c.ruleStrOperatorPad()
+	c.ruleStrFloatWidth()
 }
 
 // ruleStrCondValid: the unguarded Condition renderer condition.string is
